@@ -138,6 +138,7 @@ pub fn directed() -> Vec<(&'static str, Scn)> {
         s2c,
         sched: Sched::Explicit(vec![]),
         order: Order::Emission,
+        latency: 0,
     };
     let none = || d(0, vec![1], vec![4096], false, 0);
     vec![
